@@ -11,6 +11,9 @@ Abstract cases (first field = kind, second = table spec `id:N | rw:N:SEQ | txt:T
   case  SPEC s MASK       s, s re-cased by MASK ('u'/'l', cycled), upper(s), lower(s)
   tail  SPEC s r          a = s cut to a multiple of 3; Translate(a) and Translate(a ++ r)
   table N                 GetCodonTable(N) itself (start / stop lists, the 64 cells)
+  hist  SPEC STEP…        one private table instance through a history: `T:dna` translate, `W:seq` re-weight in
+                          place, `S:i,j` swap the letters of entries i and j in place; a translation must depend
+                          on the table as it is NOW
 The concrete strings of a request are produced here (take / drop / map), i.e. by the functions the theorems
 are about.
 -/
@@ -43,6 +46,7 @@ def seqsOf (f : List String) : Option (String × List Str) :=
 def render (f : List String) : List String :=
   match f with
   | ["table", n] => ["table", "id:" ++ n]
+  | "hist" :: spec :: steps => "opthist" :: spec :: "0" :: steps
   | _ =>
     match seqsOf f with
     | some (spec, ss) => "translate" :: spec :: ss.map String.ofList
@@ -166,9 +170,43 @@ def judgeTable (n : Nat) (out : List String) : Verdict :=
       detail := if corr && j then "" else showTable (getCodonTable n) }
   | _ => { corr := false, judge := some false, cls := "table/bad-reply" }
 
+/-- a history on one private table instance (`W:seq` re-weight in place, `S:i,j` swap the letters of two
+entries in place, `T:dna` translate): every `T` step is judged against the table text reported at that moment -/
+def judgeHist (steps : List String) (out : List String) : Verdict :=
+  match out with
+  | "ok" :: rest =>
+    let rec go (fuel : Nat) (steps rest : List String) (corr j wf : Bool) (detail : String) : Bool × Bool × Bool × String :=
+      match fuel with
+      | 0 => (false, false, wf, "fuel")
+      | fuel + 1 =>
+        match steps with
+        | [] => (corr && rest.isEmpty, j, wf, detail)
+        | step :: more =>
+          if step.startsWith "W:" || step.startsWith "S:" then go fuel more rest corr j wf detail
+          else if step.startsWith "T:" then
+            match rest with
+            | "T" :: tt :: st :: v :: rest' =>
+              let t := parseTable tt
+              let s := (step.drop 2).toString.toList
+              let m := outStr (translate s t)
+              let o := if st == "ok" then [st, v] else [st, ""]
+              let expect := if s.isEmpty then ["err", ""] else
+                match specTranslation t .txt s with
+                | some x => ["ok", String.ofList x]
+                | none => ["?"]
+              go fuel more rest' (corr && o == m) (j && o == expect) (wf && decide (WFTable t) && decide (Acgt s))
+                (if o == m && o == expect then detail else lineOf (m ++ ["expect"] ++ expect))
+            | _ => (false, false, wf, "reply shape")
+          else (false, false, wf, "bad step")
+    let (corr, j, wf, detail) := go (steps.length + 1) steps rest true true true ""
+    { corr := corr, judge := if wf then some j else none, cls := "hist/" ++ toString steps.length ++ "steps", detail := detail }
+  | st :: _ => { corr := false, judge := none, cls := "request-" ++ st }
+  | [] => { corr := false, judge := none, cls := "no-reply" }
+
 def judge (f out : List String) : Verdict :=
   match f with
   | ["table", n] => judgeTable (natOfStr n) out
+  | "hist" :: _ :: steps => judgeHist steps out
   | _ =>
     match seqsOf f with
     | some (spec, ss) => judgeSeqs f spec ss out
